@@ -15,7 +15,7 @@ NOARG = 99
 # which property a failing clause belongs to
 CLAUSE_PROP = {
     'result': 'C14', 'rows': 'C14', 'len': 'C14', 'getitem': 'C14', 'slice': 'C14', 'contains': 'C14',
-    'iter': 'C14', 'slice_shape': 'C14', 'parent_changed': 'C14', 'exception': 'C14',
+    'iter': 'C14', 'slice_shape': 'C14', 'parent_changed': 'C14', 'exception': 'C14', 'repr': 'C14',
     'lookup': 'C15', 'get': 'C15',
     'version': 'C10',
 }
@@ -207,6 +207,10 @@ def observe(hs, g, R, codes, rng=None, full=False):
         except Exception as e:
             obs.append({'k': 'contains', 'row': rid, 'v': type(e).__name__})
     obs.extend(observe_lookups(hs, g, R, codes))
+    try:
+        obs.append({'k': 'repr', 'ok': isinstance(repr(g), str)})
+    except Exception as e:
+        obs.append({'k': 'repr', 'ok': False, 'exc': type(e).__name__})
     return obs
 
 
@@ -264,6 +268,9 @@ def check_obs(st, obs):
         elif k == 'contains':
             if o['v'] is not st['contains'][o['row'] - 1]:
                 bad.append(('contains', o, st['contains'][o['row'] - 1]))
+        elif k == 'repr':
+            if not o['ok']:
+                bad.append(('repr', o, True))
         elif k in ('lookup', 'get'):
             allowed = st['lookup'][o['id'] - 1] if isinstance(st['lookup'], list) else st['lookup'][str(o['id'])]
             if allowed:
@@ -386,11 +393,12 @@ def run_engine(rep, tier, focus):
     hs = use_repo()
     found = []
     with Work('gridseq') as work:
-        r = run_tlc(work, 'MC_GridSeq.tla', 'MC_GridSeq.cfg')
+        r = run_tlc(work, 'MC_GridSeq.tla', 'MC_GridSeq.cfg' if tier == 'quick' else 'MC_GridSeq_thorough.cfg', xmx='8g')
         rep.tlc('model-check', r)
         if r.invariant_violated:
             raise MachineryError('GridSeq.tla violates its own property %s' % r.invariant_violated)
-        g = run_tlc(work, 'MC_GridSeq.tla', 'Gen_GridSeq.cfg', workers=1, xmx='6g')
+        g = run_tlc(work, 'MC_GridSeq.tla', 'Gen_GridSeq.cfg' if tier == 'quick' else 'Gen_GridSeq_thorough.cfg', workers=1, xmx='12g',
+                    timeout=3000)
         rep.tlc('state+edge generation', g)
         states, edges, inits = load_graph(g.json_lines())
         if len(states) != g.distinct or sum(len(v[2]) for v in edges.values()) != g.generated - g.initial:
